@@ -47,7 +47,8 @@ class AbsHeap:
         for p, b in list(self.boxof.items()):
             if b == o:
                 self._forget(p)
-        self.ghost[o] = dict(self.edges.pop(o, None) or {})
+        if o in self.edges:                   # (a second visit, e.g. through an owner forgotten later, must not wipe the record)
+            self.ghost[o] = dict(self.edges.pop(o))
 
     def usable(self, o):
         return o in self.alive
